@@ -102,6 +102,21 @@ def _r(x):
 
 def cases(ctx):
     rng = ctx.rng
+    # containment of points from which the library's first test direction runs through an edge of a non-convex solid
+    # (forward and backward hit counts of different parity): one point per edge, both sides, both engines
+    d0 = np.array([0.4395064455, 0.617598629942, 0.652231566745])
+    for name in ("annulus", "torus", "annulus/r7"):
+        m = mesh(name)
+        sz = float(np.linalg.norm(m.extents))
+        E = m.edges_unique
+        for eng in ("numpy", "embree"):
+            for sgn in (-1.0, 1.0):
+                pts = []
+                for i, (a, b) in enumerate(m.vertices[E]):
+                    q = a + (0.5 if i % 2 else 0.25) * (b - a)
+                    pts.append([float(x) for x in (q - sgn * (0.07 + 0.05 * (i % 3)) * sz * d0)])
+                yield {"kind": "contains", "mesh": name, "engine": eng, "points": pts,
+                       "dirs": [[0.31, 0.52, 0.79], [-0.62, 0.27, 0.73]]}
     while True:
         name = rng.choice(BASES)
         if rng.random() < 0.5:
